@@ -113,6 +113,7 @@ pub struct Run {
     pub state_event_pairs: BTreeSet<String>,
     pub chain_epoch: u64,
     pub key_counter: u64,
+    pub background_stuck: bool,
     /// Some: signers behave like real ones - a (signer, signed entity) whose signature was
     /// ACKNOWLEDGED (registered or buffered) is never sent again (C15's workload: a restarted
     /// aggregator has to go on with what it persisted). None: every Sign event sends.
@@ -165,6 +166,7 @@ impl Run {
             state_event_pairs: BTreeSet::new(),
             chain_epoch: start_epoch,
             key_counter: 0,
+            background_stuck: false,
             signed_once: None,
         })
     }
@@ -191,6 +193,7 @@ impl Run {
             state_event_pairs: BTreeSet::new(),
             chain_epoch,
             key_counter: 0,
+            background_stuck: false,
             signed_once: None,
         })
     }
@@ -325,8 +328,13 @@ impl Run {
             Ev::Tick => {
                 let r = self.sim.cycle().await;
                 // let a spawned artifact task finish: artifacts are produced by a background task
-                for _ in 0..50 {
-                    tokio::task::yield_now().await;
+                // whose duration depends on the machine's load (file archiving); what the harness
+                // observes after a tick must not. Once a task has not come back within the cap the
+                // history goes on with short waits (a task that never ends is for the oracles).
+                let cap = if self.background_stuck { std::time::Duration::from_millis(50) } else { std::time::Duration::from_secs(30) };
+                if !self.sim.wait_for_background_tasks(cap).await && !self.background_stuck {
+                    self.background_stuck = true;
+                    mon.count("background artifact task still running 30 s after a tick");
                 }
                 entry["reply"] = json!(match &r { Ok(()) => "ok".to_string(), Err(e) => format!("err: {e}") });
                 if let Err(e) = &r {
